@@ -13,6 +13,7 @@ import (
 	"github.com/paulmach/orb/planar"
 
 	"verifharness/internal/gen"
+	"verifharness/internal/layout"
 	"verifharness/internal/stats"
 )
 
@@ -37,7 +38,27 @@ type Case struct {
 	// alike; every tolerance is relative to the scaled case's own extent, so an absolute epsilon in the
 	// code under test (|area| < 1e-10 is zero, segments shorter than 1e-9 are skipped) fails here.
 	K int `json:"k"`
+	// Layout of the value handed to orb ("shared": all point slices are consecutive windows of one
+	// buffer, "spare": every slice has spare capacity holding sentinels, "" / "plain": cap == len; outer
+	// slices get spare sentinel entries too). The model works on the independent original; after every
+	// orb call the whole argument (coordinate arrays incl. spare capacity, every entry of every outer
+	// slice incl. spare capacity) must be bit-identical: the measures must not write to their argument.
+	Layout string `json:"layout,omitempty"`
 }
+
+// curLayout is the layout compareMeasure / checkDistance give to the values they hand to orb; set by
+// checkCase (and the enumerations) for the duration of one case. Tests in this package are sequential.
+var curLayout string
+
+func layoutName() string {
+	if curLayout == "shared" || curLayout == "spare" {
+		return curLayout
+	}
+	return "plain"
+}
+
+// layouts: 40 % shared, 40 % spare, 20 % plain
+var layouts = []string{"shared", "shared", "spare", "spare", "plain"}
 
 // mapPoints applies f to every coordinate pair of g.
 func mapPoints(g orb.Geometry, f func(orb.Point) orb.Point) orb.Geometry {
@@ -108,8 +129,17 @@ func finite(v float64) bool { return !math.IsNaN(v) && !math.IsInf(v, 0) }
 // ---------------------------------------------------------------- measure
 
 func compareMeasure(g orb.Geometry, m measure, what string) error {
-	c, a := planar.CentroidArea(g)
-	if a2 := planar.Area(g); math.Float64bits(a2) != math.Float64bits(a) {
+	// orb sees a laid-out copy; g itself (what the model m was computed from) is never handed over
+	lg, gd := layout.LayOut(g, curLayout)
+	c, a := planar.CentroidArea(lg)
+	if err := gd.Check(); err != nil {
+		return fmt.Errorf("%s: CentroidArea(%s) [%s layout]: %v", what, gen.Canon(g), layoutName(), err)
+	}
+	a2 := planar.Area(lg)
+	if err := gd.Check(); err != nil {
+		return fmt.Errorf("%s: Area(%s) [%s layout]: %v", what, gen.Canon(g), layoutName(), err)
+	}
+	if math.Float64bits(a2) != math.Float64bits(a) {
 		return fmt.Errorf("%s: Area = %v but CentroidArea's area = %v", what, a2, a)
 	}
 	want := f64(m.area)
@@ -149,7 +179,10 @@ func compareMeasure(g orb.Geometry, m measure, what string) error {
 			return fmt.Errorf("%s: centroid %v of zero-length lines is not inside the bound %v of their points", what, c, b)
 		}
 	}
-	l := planar.Length(g)
+	l := planar.Length(lg)
+	if err := gd.Check(); err != nil {
+		return fmt.Errorf("%s: Length(%s) [%s layout]: %v", what, gen.Canon(g), layoutName(), err)
+	}
 	if m.length == 0 {
 		if l != 0 {
 			return fmt.Errorf("%s: length = %v, want 0", what, l)
@@ -411,6 +444,7 @@ func distTol(exact, scale float64) float64 { return 1e-9*exact + 1e-14*scale }
 
 func checkDistance(c Case) error {
 	g := c.G.V
+	lg, gd := layout.LayOut(g, curLayout) // orb sees lg, the model sees g
 	for _, qp := range c.Q {
 		q := qp.Pt()
 		dm, err := distModel(g, q)
@@ -420,8 +454,15 @@ func checkDistance(c Case) error {
 		if dm.min == nil {
 			return fmt.Errorf("harness: geometry without boundary segments is outside the generated domain")
 		}
-		d, idx := planar.DistanceFromWithIndex(g, q)
-		if d2 := planar.DistanceFrom(g, q); math.Float64bits(d2) != math.Float64bits(d) {
+		d, idx := planar.DistanceFromWithIndex(lg, q)
+		if err := gd.Check(); err != nil {
+			return fmt.Errorf("DistanceFromWithIndex(%s, %v) [%s layout]: %v", gen.Canon(g), q, layoutName(), err)
+		}
+		d2 := planar.DistanceFrom(lg, q)
+		if err := gd.Check(); err != nil {
+			return fmt.Errorf("DistanceFrom(%s, %v) [%s layout]: %v", gen.Canon(g), q, layoutName(), err)
+		}
+		if math.Float64bits(d2) != math.Float64bits(d) {
 			return fmt.Errorf("DistanceFrom(%v) = %v but DistanceFromWithIndex gives %v", q, d2, d)
 		}
 		exact := sqrtRat(dm.min)
@@ -514,7 +555,10 @@ func checkCase(c Case) error {
 	if !inDomain(c) || c.K < -64 || c.K > 64 {
 		return nil
 	}
+	lay := c.Layout
 	c = c.scaled()
+	curLayout = lay
+	defer func() { curLayout = "" }()
 	if c.G.V == nil && c.Op != "points" {
 		return fmt.Errorf("harness: nil geometry")
 	}
